@@ -1,26 +1,131 @@
-"""C17 sidecar contracts: pydoctor/sphinx.py"""
+"""C17 sidecar contracts: pydoctor/sphinx.py (reader robustness, writer line format, round trip)."""
+from pyvc.contracts import Loop
+from contracts.shapes import register_shapes, assume_model_queries
+
 F = 'pydoctor/sphinx.py'
+
+ASSUMPTIONS = [
+    "Sphinx's own reader (sphinx.util.inventory) is external: the round trip is proved for pydoctor's reader only",
+    'zlib.compress/decompress and utf-8 encode/decode are inverse (CPython)',
+    'the logger callable passed to SphinxInventory does not raise',
+    'exception *messages* (%-formatting of str arguments) cannot raise',
+]
 
 
 def register(reg):
     reg.pid = 'C17'
+    register_shapes(reg)
+    assume_model_queries(reg)
+    reg.ghosts['errors'] = 'Int'       # number of error reports sent to the logger (thresh=-1)
+
+    # ---- string-library facts (assumptions; bounded-validated natively on every run) -----------------
+    reg.axiom('split_cons', "implies(' ' not in a, (a + ' ' + b).split(' ') == [a] + b.split(' '))",
+              {'a': 'Str', 'b': 'Str'}, source='CPython str.split')
+    reg.axiom('split_one', "implies(' ' not in a, a.split(' ') == [a])", {'a': 'Str'}, source='CPython str.split')
+    reg.axiom('join_one', "' '.join([a]) == a", {'a': 'Str'}, source='CPython str.join')
+    reg.axiom('int_lit_shape', "implies(is_int_literal(a), re_match('\\\\s*[+-]?[0-9][0-9_]*\\\\s*', a))",
+              {'a': 'Str'}, source='CPython int(): ASCII subset of the accepted numerals (necessary condition)')
+    reg.axiom('int_lit_minus1', "is_int_literal('-1') and int_of('-1') == -1", {}, source='CPython int()')
+
+    # ---- external callees ---------------------------------------------------------------------------------
+    reg.assume_ext('<param>CallableLogger', params={'fn': 'Obj[CallableLogger]', 'where': 'Str', 'message': 'Str',
+                                                     'thresh': 'Int'},
+                   modifies=['errors'], raises={},
+                   ensures=['errors == old(errors) + (1 if thresh < 0 else 0)'],
+                   source='callers pass System.msg; assumed not to raise')
+    reg.assume_ext('zlib.decompress', params={'data': 'Bytes'}, returns='Bytes', pure=True,
+                   raises={'zlib.error': 'True'}, source='CPython docs: zlib.error on invalid data')
+    reg.assume_ext('<CacheT>.get', params={'cache': 'Obj[CacheT]', 'url': 'Str'}, returns='Opt[Bytes]',
+                   raises={}, source="IntersphinxCache.get catches Exception (its own contract, verified below)")
+
+    # ---- reader -------------------------------------------------------------------------------------------
     reg.contract(F, '_parseInventoryLine',
         params={'line': 'Str'},
         returns='Tuple[Str,Str,Int,Str,Str]',
-        lets={'parts': "line.split(' ')", 'p': "first_int(line.split(' '), 2)"},
-        requires=[],
         # a malformed line is survivable: ValueError is the only exception that may escape
-        raises={'ValueError': "p + 1 >= len(parts) or ' '.join(parts[p + 2:]) == ''"},
+        raises={'ValueError': 'not parse_ok(line)'},
         ensures=[
-            "p + 1 < len(parts)",
-            "result[0] == ' '.join(parts[:p - 1])",
-            "result[1] == parts[p - 1]",
-            "result[2] == int_of(parts[p])",
-            "result[3] == parts[p + 1]",
-            "result[4] == ' '.join(parts[p + 2:])",
-            "result[4] != ''",
+            'parse_ok(line)',
+            'result[0] == p_name(line)',
+            'result[1] == p_type(line)',
+            'result[2] == p_prio(line)',
+            'result[3] == p_loc(line)',
+            'result[4] == p_disp(line)',
         ],
-        loops={0: __import__('pyvc.contracts', fromlist=['Loop']).Loop(
-            invariant=["prio_idx >= 2", "first_int(parts, prio_idx) == first_int(parts, 2)"],
-            decreases="len(parts) - prio_idx + 1")},
+        loops={0: Loop(invariant=['prio_idx >= 2', 'first_int(parts, prio_idx) == first_int(parts, 2)'],
+                       decreases='len(parts) - prio_idx + 1')},
         replay='replay.c17:parse_line')
+
+    reg.contract(F, 'SphinxInventory.error', params={'where': 'Str', 'message': 'Str'},
+                 modifies=['errors'], raises={}, ensures=['errors == old(errors) + 1'])
+
+    reg.contract(F, 'SphinxInventory._parseInventory',
+        params={'base_url': 'Str', 'payload': 'Str'},
+        returns='Map[Str,Tuple[Str,Str]]',
+        locals={'result': 'Map[Str,Tuple[Str,Str]]'},
+        lets={'lines': 'payload.splitlines()'},
+        raises={},                                   # never aborts, whatever the payload
+        modifies=['errors'],
+        opaque=['parse_ok', 'p_name', 'p_type', 'p_prio', 'p_loc', 'p_disp'],
+        ensures=[
+            # usable lines in the same file still resolve
+            'all(implies(usable(lines[j]), p_name(lines[j]) in result) for j in range(len(lines)))',
+            # unusable parts are reported: exactly one report per malformed line
+            'errors == old(errors) + n_bad(lines, len(lines))',
+        ],
+        loops={0: Loop(index='i', modifies=['errors'], invariant=[
+            'all(implies(usable(lines[j]), p_name(lines[j]) in result) for j in range(i))',
+            'errors == old(errors) + n_bad(lines, i)'])})
+
+    reg.contract(F, 'SphinxInventory._getPayload',
+        params={'base_url': 'Str', 'data': 'Bytes'}, returns='Str',
+        raises={}, modifies=['errors'],
+        ensures=["result == '' or errors == old(errors)"],
+        loops={0: Loop(invariant=['True'])})
+
+    reg.contract(F, 'SphinxInventory.update',
+        params={'cache': 'Obj[CacheT]', 'url': 'Str'},
+        raises={}, modifies=['errors', '_links'],
+        ensures=[])
+
+    # ---- writer ---------------------------------------------------------------------------------------------
+    reg.axiom('bjoin_snoc', "b''.join(xs + [a]) == b''.join(xs) + a", {'xs': 'Seq[Bytes]', 'a': 'Bytes'},
+              source='CPython bytes.join')
+    reg.contract(F, 'SphinxInventoryWriter.error', params={'where': 'Str', 'message': 'Str'},
+                 modifies=['errors'], raises={}, ensures=['errors == old(errors) + 1'])
+    reg.contract(F, 'SphinxInventoryWriter._generateLine',
+        params={'obj': 'Ref[Documentable]'}, returns='Str', raises={}, modifies=['errors'],
+        ensures=['result == inv_line(obj)'])
+    reg.contract(F, 'SphinxInventoryWriter._generateContent',
+        params={'subjects': 'Seq[Ref[Documentable]]'}, returns='Bytes', raises={}, modifies=['errors'],
+        locals={'content': 'Seq[Bytes]'},
+        opaque=['inv_line'],
+        # exactly one line per visible object, pre-order; nothing for (or below) a hidden object
+        ensures=['result == inv_upto(subjects, len(subjects))'],
+        loops={0: Loop(index='i', modifies=['errors'],
+                       invariant=["b''.join(content) == inv_upto(subjects, i)"],
+                       hints=[('bjoin_snoc', {'xs': 'content[:len(content) - 2]', 'a': 'content[len(content) - 2]'}),
+                              ('bjoin_snoc', {'xs': 'content[:len(content) - 1]', 'a': 'content[len(content) - 1]'})])},
+        )
+
+    # ---- round trip: what the writer emits for one object is read back as that object's entry -------------
+    # Step A: the emitted line splits into exactly the five columns.
+    reg.lemma('roundtrip_split',
+        vars={'fn': 'Str', 'url': 'Str', 'dom': 'Str', 'r1': 'Str', 'r2': 'Str', 'r3': 'Str', 'line': 'Str'},
+        hyps=["' ' not in fn", "' ' not in url",
+              "dom == 'module' or dom == 'class' or dom == 'function' or dom == 'method' or dom == 'attribute' or dom == 'obj'",
+              "r3 == url + ' ' + '-'", "r2 == '-1' + ' ' + r3", "r1 == 'py:' + dom + ' ' + r2", "line == fn + ' ' + r1"],
+        hints=[('split_cons', {'a': 'fn', 'b': 'r1'}), ('split_cons', {'a': "'py:' + dom", 'b': 'r2'}),
+               ('split_cons', {'a': "'-1'", 'b': 'r3'}), ('split_cons', {'a': 'url', 'b': "'-'"}),
+               ('split_one', {'a': "'-'"}), ('int_lit_shape', {'a': "'py:' + dom"})],
+        goal=["line.split(' ') == [fn, 'py:' + dom, '-1', url, '-']",
+              "not is_int_literal('py:' + dom)"])
+    # Step B: a line with those five columns is read back as (fn, url); its hypotheses are step A's conclusions.
+    reg.lemma('roundtrip_parse',
+        vars={'fn': 'Str', 'url': 'Str', 't': 'Str', 'line': 'Str'},
+        hyps=["line.split(' ') == [fn, t, '-1', url, '-']", "not is_int_literal(t)", "t.startswith('py:')"],
+        hints=[('join_one', {'a': 'fn'}), ('join_one', {'a': "'-'"}), ('int_lit_minus1', {})],
+        goal=["len(line.split(' ')) == 5", "line.split(' ')[1] == t", "line.split(' ')[2] == '-1'",
+              "line.split(' ')[3] == url", "first_int(line.split(' '), 2) == 2",
+              "parse_ok(line)", "p_name(line) == fn", "p_loc(line) == url", "p_prio(line) == -1", "p_disp(line) == '-'",
+              "p_type(line) == t", "usable(line)"])
